@@ -80,7 +80,17 @@ type Ctl struct {
 	disabled atomic.Bool // after the loop ends points no longer park
 	// Actions, when set, lists the harness actions enabled at this decision (appended after the goroutines).
 	Actions func() []Action
+	// OnIdle, when set, is asked for one more harness step when nothing has been enabled for the whole horizon
+	// (quiescence): a non-nil action is executed as a single-choice decision and the idle clock restarts.
+	OnIdle func() *Action
 	idleSteps int
+	wake      chan struct{}
+	// IdleResets: the horizon bounds consecutive idle virtual time (reset by every decision) instead of the total
+	IdleResets bool
+	// StrictCost: every choice other than the default (first) entry costs one deviation, also when the goroutine
+	// that ran last has blocked. For pipelines whose activity moves from goroutine to goroutine, where "the
+	// running goroutine" is not a useful notion of the default continuation.
+	StrictCost bool
 }
 
 // Goid returns the id of the calling goroutine.
@@ -115,7 +125,14 @@ func (c *Ctl) Choose(key, label string, free bool, n int, altCost int) int {
 	c.seq++
 	p.seq = c.seq
 	c.parked = append(c.parked, p)
+	w := c.wake
 	c.mu.Unlock()
+	if w != nil {
+		select {
+		case w <- struct{}{}: // the controller may be idling in virtual time: a parked goroutine must not wait for the quantum to end
+		default:
+		}
+	}
 	return <-p.ch
 }
 
@@ -123,6 +140,24 @@ func (c *Ctl) Logf(format string, a ...interface{}) {
 	c.mu.Lock()
 	c.Log = append(c.Log, fmt.Sprintf(format, a...))
 	c.mu.Unlock()
+}
+
+// DropParked forgets every parked goroutine whose key satisfies pred: it stays blocked for the rest of the
+// execution (a crashed incarnation's goroutines never run again) and is no longer offered as a choice.
+func (c *Ctl) DropParked(pred func(key string) bool) int {
+	c.mu.Lock()
+	defer c.mu.Unlock()
+	var keep []*parked
+	n := 0
+	for _, p := range c.parked {
+		if pred(p.key) {
+			n++
+			continue
+		}
+		keep = append(keep, p)
+	}
+	c.parked = keep
+	return n
 }
 
 // Stop ends the scheduling loop after the current decision.
@@ -152,7 +187,7 @@ func (c *Ctl) enabled() ([]entry, []string, []int) {
 	for i, p := range ps {
 		for a := 0; a < p.alts; a++ {
 			cost := 0
-			if i > 0 && curParked && !ps[0].free {
+			if i > 0 && ((curParked && !ps[0].free) || c.StrictCost) {
 				cost++ // switching away from a runnable goroutine that did not yield: preemption
 			}
 			if a > 0 {
@@ -171,7 +206,7 @@ func (c *Ctl) enabled() ([]entry, []string, []int) {
 		for _, a := range c.Actions() {
 			a := a
 			cost := a.Cost
-			if curParked && !ps[0].free {
+			if (curParked && !ps[0].free) || (c.StrictCost && len(es) > 0) {
 				cost++
 			}
 			es = append(es, entry{act: &a})
@@ -187,6 +222,9 @@ func (c *Ctl) enabled() ([]entry, []string, []int) {
 func (c *Ctl) Loop(done func() bool) {
 	defer c.disabled.Store(true)
 	defer c.releaseAll()
+	c.mu.Lock()
+	c.wake = make(chan struct{}, 1) // created inside the bubble
+	c.mu.Unlock()
 	for c.Steps = 0; c.Steps < c.MaxSteps; {
 		heartbeat.Add(1)
 		synctest.Wait()
@@ -199,17 +237,41 @@ func (c *Ctl) Loop(done func() bool) {
 		es, labels, costs := c.enabled()
 		if len(es) == 0 {
 			if c.idle >= c.Horizon {
+				if c.OnIdle != nil {
+					if a := c.OnIdle(); a != nil {
+						c.Choices = append(c.Choices, 0)
+						c.Trace = append(c.Trace, Decision{Enabled: []string{"idle@" + a.Label}, Costs: []int{0}, Chosen: 0})
+						if k := len(c.Choices) - 1; k < len(c.prefix) && c.prefix[k] != 0 {
+							c.Diverged = true
+							c.divMsg = fmt.Sprintf("decision %d: idle step %s where the parent chose %d", k, a.Label, c.prefix[k])
+							c.prefix = c.prefix[:k]
+						}
+						c.Steps++
+						c.idle, c.idleSteps = 0, 0
+						a.Do()
+						continue
+					}
+				}
 				return
 			}
 			q := c.Quantum << uint(c.idleSteps)
 			if c.idleSteps < 8 {
 				c.idleSteps++
 			}
-			time.Sleep(q)
-			c.idle += q
+			t0 := time.Now()
+			tm := time.NewTimer(q)
+			select {
+			case <-tm.C:
+			case <-c.wake:
+				tm.Stop()
+			}
+			c.idle += time.Since(t0)
 			continue
 		}
 		c.idleSteps = 0
+		if c.IdleResets {
+			c.idle = 0
+		}
 		i := 0
 		k := len(c.Choices)
 		if k < len(c.prefix) {
@@ -331,6 +393,8 @@ type Explorer struct {
 	Quantum  time.Duration
 	Horizon  time.Duration
 	MaxSteps int
+	IdleResets bool
+	StrictCost bool
 	Shard, NShard int
 	Stats    Stats
 	Found    []Found
@@ -354,7 +418,7 @@ var currentExec atomic.Value // string
 
 // RunOnce executes one schedule (prefix then defaults) in a fresh bubble.
 func (e *Explorer) RunOnce(sc *Scenario, prefix []int, expect [][]string) (res execResult) {
-	ctl := &Ctl{prefix: prefix, expect: expect, Quantum: e.Quantum, Horizon: e.Horizon, MaxSteps: e.MaxSteps}
+	ctl := &Ctl{prefix: prefix, expect: expect, Quantum: e.Quantum, Horizon: e.Horizon, MaxSteps: e.MaxSteps, IdleResets: e.IdleResets, StrictCost: e.StrictCost}
 	currentExec.Store(fmt.Sprintf("%s %v", sc.Name, prefix))
 	if e.OnExec != nil {
 		e.OnExec(sc, prefix)
